@@ -2004,4 +2004,53 @@ pub mod verif_hooks {
             BufferFlags::PRODUCE_SAFE_TO_INSERT_TATWEEL.bits(),
         )
     }
+
+    /// `hb_buffer_t::set_masks` on a bare buffer holding `infos` = (mask, cluster) with `len` <= infos.len();
+    /// returns all masks (also those beyond `len`).
+    pub fn set_masks_on(
+        infos: &[(u32, u32)],
+        len: usize,
+        value: u32,
+        mask: u32,
+        cluster_start: u32,
+        cluster_end: u32,
+    ) -> Vec<u32> {
+        let mut b = hb_buffer_t::new();
+        for &(m, c) in infos {
+            b.info.push(hb_glyph_info_t {
+                glyph_id: 0,
+                mask: m,
+                cluster: c,
+                var1: 0,
+                var2: 0,
+            });
+        }
+        b.len = len;
+        b.set_masks(value, mask, cluster_start, cluster_end);
+        b.info.iter().map(|i| i.mask).collect()
+    }
+
+    /// `hb_buffer_t::reset_masks` followed by a list of `set_masks` calls (value, mask, start, end).
+    pub fn reset_and_set_masks(
+        clusters: &[u32],
+        global_mask: u32,
+        calls: &[(u32, u32, u32, u32)],
+    ) -> Vec<u32> {
+        let mut b = hb_buffer_t::new();
+        for &c in clusters {
+            b.info.push(hb_glyph_info_t {
+                glyph_id: 0,
+                mask: 0,
+                cluster: c,
+                var1: 0,
+                var2: 0,
+            });
+        }
+        b.len = clusters.len();
+        b.reset_masks(global_mask);
+        for &(v, m, s, e) in calls {
+            b.set_masks(v, m, s, e);
+        }
+        b.info.iter().map(|i| i.mask).collect()
+    }
 }
